@@ -286,8 +286,9 @@ class LinSolve(Module):
         # Update solver with new matrix
         self.solver.update(mat)
 
-        # Solution
-        self.u = self.solver.solve(rhs, x0=self.u)
+        # Solution, with the previous one as initial guess if it still is of the shape of the right-hand-side
+        x0 = self.u if np.shape(self.u) == np.shape(rhs) else None
+        self.u = self.solver.solve(rhs, x0=x0)
 
         return self.u
 
